@@ -590,6 +590,58 @@ def run(chk):
                     chk.ob("O19.7", f"{fn.name}: took is summed over the pages", summed, st_, short(st_, 80), key=f"{_R}:Query.{fn.name}:sum:took")
     chk.ob("O19.7", "page accumulators located (scroll, search_after, composite)", n7 >= 5, Q, f"{n7} in-loop store(s)")
 
+    # ---- O19.8 what is read from a selective parse was requested from it ------------------------------------------------------------------------------------
+    chk.rule("O19.8", "every key a caller reads from the result of parse(text, props, lists, objects) is among the paths it requested in that call (a path that was not requested is "
+             "never extracted: the read silently yields its default while a full parse has the value)", 20,
+             "a statistic present in the response (e.g. _shards.skipped) is reported as 0 / absent by the lazy path")
+    n8 = 0
+    for fn in [n for n in ast.walk(rn.tree) if isinstance(n, (ast.FunctionDef, ast.AsyncFunctionDef))]:
+        for asg in [n for n in walk_body(fn) if isinstance(n, ast.Assign) and len(n.targets) == 1 and isinstance(n.targets[0], ast.Name) and isinstance(n.value, ast.Call)
+                    and isinstance(n.value.func, ast.Name) and n.value.func.id == "parse" and source.enclosing_func(n) is fn]:
+            var = asg.targets[0].id
+            fdefs_ = local_defs(fn)
+            req = set()
+            evaluable = True
+            for a_ in asg.value.args[1:] + [k.value for k in asg.value.keywords]:
+                try:
+                    v_ = ev(source.inline_node(a_, fdefs_, no_calls=True), {})
+                    if v_ is not None:
+                        req |= set(v_)
+                    if isinstance(a_, ast.Name):
+                        # a list built up step by step: everything that MAY have been appended / extended counts as requested
+                        for m_ in walk_body(fn):
+                            if isinstance(m_, ast.Call) and isinstance(m_.func, ast.Attribute) and isinstance(m_.func.value, ast.Name) and m_.func.value.id == a_.id and m_.args:
+                                if m_.func.attr == "append":
+                                    req.add(ev(source.inline_node(m_.args[0], fdefs_, no_calls=True), {}))
+                                elif m_.func.attr == "extend":
+                                    req |= set(ev(source.inline_node(m_.args[0], fdefs_, no_calls=True), {}))
+                except (CannotEval, TypeError):
+                    evaluable = False
+            if not evaluable:
+                chk.adv("O19.8", f"{fn.name}: the paths requested from parse() are not a literal list (reads of `{var}` not cross-checked)", asg)
+                continue
+            # reads of var that this assignment reaches: same function, until the name is re-bound by another parse
+            others = [n for n in walk_body(fn) if isinstance(n, ast.Assign) and n is not asg and any(isinstance(t, ast.Name) and t.id == var for t in n.targets)]
+            gfn = cfg_of(fn)
+            for rd_ in walk_body(fn):
+                key = None
+                if isinstance(rd_, ast.Call) and isinstance(rd_.func, ast.Attribute) and rd_.func.attr == "get" and isinstance(rd_.func.value, ast.Name) and rd_.func.value.id == var and rd_.args and isinstance(rd_.args[0], ast.Constant):
+                    key = rd_.args[0].value
+                elif isinstance(rd_, ast.Subscript) and isinstance(rd_.value, ast.Name) and rd_.value.id == var and isinstance(rd_.slice, ast.Constant) and isinstance(rd_.ctx, ast.Load):
+                    key = rd_.slice.value
+                if key is None or not isinstance(key, str):
+                    continue
+                try:
+                    reached = gfn.path_exists(gfn.node_of(asg), gfn.node_of(rd_), avoid=[gfn.node_of(o_) for o_ in others if gfn.node_of(o_) is not gfn.node_of(rd_)])
+                except KeyError:
+                    continue
+                if not reached:
+                    continue
+                n8 += 1
+                chk.ob("O19.8", f"{fn.name}: `{var}[{key!r}]` was requested from the parser", key in req, rd_, "" if key in req else f"requested: {sorted(req)}",
+                       key=f"{_R}:{source.qualname(fn)}:requested:{key}")
+    chk.ob("O19.8", "selective-parse consumers located", n8 >= 20, rn.tree, f"{n8} keyed read(s)")
+
     # ---- O19.3 selective parser ------------------------------------------------------------------------------------------------------------------------------
     chk.rule("O19.3", "the selective parser matches requested properties / lists / objects on the full ijson prefix; member keys of a collected object are the prefix with the object's own path "
              "stripped; early exit only when all requested properties, lists and objects were seen; an incomplete document ends the scan silently", 7,
@@ -679,6 +731,33 @@ def run(chk):
             chk.ob("O19.3", f"object member: event {ev_name} value {v_!r} -> {'stored' if stored else 'nothing stored'}", ok, PL,
                    ("stored" if got else "not stored") + ("" if ok else " — a falsy member value is dropped, so the extracted object differs from the fully parsed one (e.g. a composite after_key with false / 0 / '')"),
                    key=f"{_R}:parse:member:{ev_name}|{v_!r}")
+        # the END of the collected object, on values: the object is stored under its own path and the parser LEAVES the object (otherwise every later scalar of the response is
+        # added to it while the scan continues for a property that is absent)
+        env_ = dict(init_env)
+        env_.update({pre: "a", evn: "end_map", val: None, pp[1]: [], pp[2]: None, pp[3]: ["a"], INOBJ: "a"})
+
+        def atom_e(n, env, env_=env_):
+            try:
+                return bool(_me.ev(n, dict(env_)))
+            except _me.CannotEval:
+                return None
+
+        try:
+            out_ = decide(PL.body, atom_e, {})
+            bnd_ = getattr(out_, "bindings", {})
+            left = isinstance(bnd_.get(INOBJ), ast.Constant) and bnd_[INOBJ].value is None
+            stores = [e_ for e_ in out_.effects if isinstance(e_, ast.Assign) and isinstance(e_.targets[0], ast.Subscript) and root_name(e_.targets[0]) != RES]
+            keyed = False
+            if len(stores) == 1:
+                try:
+                    keyed = _me.ev(stores[0].targets[0].slice, dict(env_)) == "a"
+                except _me.CannotEval:
+                    keyed = False
+            chk.ob("O19.3", "end of the collected object: stored under its own path", keyed, stores[0] if stores else PL, "", key=f"{_R}:parse:object-end:stored")
+            chk.ob("O19.3", "end of the collected object: the parser leaves the object (path variable reset)", left, PL,
+                   "" if left else f"`{INOBJ}` keeps the object's path after end_map: later scalar members of the response are added to the extracted object", key=f"{_R}:parse:object-end:left")
+        except (Unsupported, UnknownAtom) as e:
+            chk.unknown("O19.3", f"the end_map dispatch of parse() is not a decision over (prefix, event): {e}", PL)
     else:
         chk.unknown("O19.3", "the variable holding the path of the object being collected could not be identified in parse()", PL)
     brk = [n for n in ast.walk(PL) if isinstance(n, ast.Break)]
